@@ -238,6 +238,9 @@ func (s *schemaPropsValidator) validateOneOf(data interface{}, mainResult, keepR
 		mainResult.Merge(bestFailures)
 		// firstSucess necessarily nil
 	case 1:
+		// exactly one alternative validates: whatever the other alternatives complained about is irrelevant,
+		// including the messages singled out as "IMPORTANT!" from alternatives tried after the valid one
+		_ = keepResultOneOf.cleared()
 		mainResult.Merge(firstSuccess)
 		if bestFailures != nil && bestFailures.wantsRedeemOnMerge {
 			pools.poolOfResults.RedeemResult(bestFailures)
